@@ -41,9 +41,9 @@ Definition homma_spec (ya yc : list Qc) : Qc :=
 Definition saltelli_spec (ya yc : list Qc) : Qc :=
   1 - (mean_prod ya yc - mean ya * mean ya) / Vhat ya.
 
-(* Janon et al. (2014), with the normalisation THE CODE uses for the second moment: 1/(N-1) *)
+(* Janon et al. (2014), with the normalisation the code used BEFORE its fix for the second moment: 1/(N-1) *)
 Definition janon_mean (ya yc : list Qc) : Qc := qsum (map2 (fun a c => (a + c) / two) ya yc) / qn (length ya).
-Definition janon_spec (ya yc : list Qc) : Qc :=
+Definition janon_orig_spec (ya yc : list Qc) : Qc :=
   1 - (mean_prod ya yc - janon_mean ya yc * janon_mean ya yc)
       / (qsum (map2 (fun a c => (a * a + c * c) / two) ya yc) / (qn (length ya) - 1)
          - janon_mean ya yc * janon_mean ya yc).
@@ -71,6 +71,9 @@ Definition hsic_one (gramf : list Qc -> mat) (L : mat) (n : nat) (x : list Qc) :
 
 (* ------------------------------------------------------------------ attribution map = estimator of the scores of
    the perturbed inputs, in the order of the explainer's masks *)
+(* a forward batch size the API accepts: None (all masks at once) or at least 1 *)
+Definition bs_valid (bs : option nat) : Prop := match bs with Some b => (1 <= b)%nat | None => True end.
+
 Definition perturbed_scores (score : list Qc -> list Qc -> Qc) (p : perturbation) (g H W C : nat)
   (masks : list (list Qc)) (x t : list Qc) : list Qc :=
   map (fun m => score (perturb p g H W C x m) t) masks.
